@@ -135,5 +135,10 @@ class KDPseudoLabelWrapper(KDWrapper):
         if self.pseudo_labels.ndim == 1:
             return self.pseudo_labels.tolist()
         if self.pseudo_labels.ndim == 2:
-            return self.pseudo_labels.argmax(dim=1).tolist()
+            if self.threshold is None:
+                return self.pseudo_labels.argmax(dim=1).tolist()
+            # same as getitem_class: labels that are not confident enough are unlabeled (-1)
+            confidences, argmax = self.pseudo_labels.softmax(dim=1).max(dim=1)
+            argmax[confidences <= self.threshold] = -1
+            return argmax.tolist()
         raise NotImplementedError
